@@ -33,7 +33,7 @@ PROPERTY = "C01"
 LEVEL = "exploration"
 IMPORTS_IOFLO = False          # the check itself never imports ioflo in-process
 RULE = ("solo: every module found under <repo>/ioflo (exhaustive) + `import ioflo`, each in a clean "
-        "subprocess, normally started, started with -S (no site / .pth preloads) and started with -OO (asserts and docstrings stripped); orders: Hypothesis-drawn permutations of subsets of 2-12 modules and of all modules, imported "
+        "subprocess, normally started, started with -S (no site / .pth preloads), started with -OO (asserts and docstrings stripped) and started without a standard output (fd 1 closed, sys.stdout is None); orders: Hypothesis-drawn permutations of subsets of 2-12 modules and of all modules, imported "
         "one after another in one fresh process, each outcome compared with the module's solo outcome. "
         "non-trivial solo = module that is not a package __init__ and imports another ioflo module; "
         "non-trivial order = modules from >= 2 different subpackages; distinct = module / module sequence")
@@ -98,9 +98,13 @@ def _clean_env():
 
 def _run(code, cwd, flags=()):
     try:
+        extra = {}
+        if "nostdout" in flags:      # interpreter started without a standard output (fd 1 closed): sys.stdout is None
+            flags = [f for f in flags if f != "nostdout"]
+            extra["preexec_fn"] = lambda: os.close(1)
         p = subprocess.run([env.PYTHON, "-B"] + list(flags) + ["-c", code], cwd=cwd, env=_clean_env(), stdin=subprocess.DEVNULL,
-                           stdout=subprocess.PIPE, stderr=subprocess.PIPE, timeout=TIMEOUT)
-        return p.returncode, p.stdout.decode("utf-8", "replace"), p.stderr.decode("utf-8", "replace")
+                           stdout=subprocess.DEVNULL if extra else subprocess.PIPE, stderr=subprocess.PIPE, timeout=TIMEOUT, **extra)
+        return p.returncode, (p.stdout or b"").decode("utf-8", "replace"), p.stderr.decode("utf-8", "replace")
     except subprocess.TimeoutExpired as ex:
         return -999, "", "TIMEOUT after %ss\n%s" % (TIMEOUT, (ex.stderr or b"").decode("utf-8", "replace"))
 
@@ -125,7 +129,7 @@ def solo(module, cwd, bare=False):
     """-> (outcome 'ok' | exception type, detail dict).  bare: interpreter started with -S (no site module, so
     none of the start-up hooks of the environment - .pth files, sitecustomize - has imported anything first)"""
     code = "import sys; sys.path.insert(0, %r); import %s" % (env.REPO, module)
-    rc, out, err = _run(code, cwd, ("-OO",) if bare == "OO" else (("-S",) if bare else ()))
+    rc, out, err = _run(code, cwd, {"OO": ("-OO",), "nostdout": ("nostdout",)}.get(bare, ("-S",) if bare else ()))
     if rc == 0 and "Traceback (most recent call last)" not in err:
         return "ok", {}
     if rc == -999:
@@ -172,9 +176,11 @@ def bare_failures(module, rel, outcome, det, bare_outcome, bare_det, flag=True):
     if bare_outcome in ("ModuleNotFoundError", "ImportError") and m and m.group(1).split(".")[0] != "ioflo":
         return []
     inner = bare_det.get("inner")
-    tag = "import-OO" if flag == "OO" else "import-bare"
+    tag = {"OO": "import-OO", "nostdout": "import-nostdout"}.get(flag, "import-bare")
     sig = "%s:%s:%s" % (tag, module, bare_outcome) if (not inner or inner == rel) else "%s:%s@%s" % (tag, bare_outcome, inner)
-    how = ("-OO (asserts and docstrings stripped)" if flag == "OO" else "-S (nothing preloaded by site / .pth hooks)")
+    how = {"OO": "-OO (asserts and docstrings stripped)",
+           "nostdout": "its standard output closed (sys.stdout is None, as under a daemon or pythonw)"}.get(
+               flag, "-S (nothing preloaded by site / .pth hooks)")
     what = ("`import %s` alone gives %s in a normally started interpreter but %s in one started with %s: %s "
             "[innermost ioflo file: %s]" % (module, outcome, bare_outcome, how, last, inner or "?"))
     return [(sig, what)]
@@ -200,6 +206,12 @@ def work(shard, seed, tier):
                 results = list(ex.map(lambda m: solo(m[0], cwd), todo))
                 bares = list(ex.map(lambda m: solo(m[0], cwd, bare=True), todo))
                 opts = list(ex.map(lambda m: solo(m[0], cwd, bare="OO"), todo))
+                nouts = list(ex.map(lambda m: solo(m[0], cwd, bare="nostdout"), todo))
+            for (module, rel, is_init), (outcome, det), (noutcome, ndet) in zip(todo, results, nouts):
+                acc.case(key=("solo-nostdout", module), nontrivial=nontrivial_module(rel, is_init),
+                         classes=["solo-nostdout", "solo-nostdout:" + ("ok" if noutcome == "ok" else noutcome)], sample=None)
+                for sig, what in bare_failures(module, rel, outcome, det, noutcome, ndet, flag="nostdout"):
+                    acc.fail(sig, what, {"solo": module, "bare": "nostdout"})
             for (module, rel, is_init), (outcome, det), (ooutcome, odet) in zip(todo, results, opts):
                 # the same import in an interpreter started with -OO (no asserts, no docstrings)
                 acc.case(key=("solo-OO", module), nontrivial=nontrivial_module(rel, is_init),
